@@ -313,6 +313,60 @@ func translateSource() (string, string) {
 			}
 		}
 	}
+	// schedule points: every verifPoint("<name>") call in the non-test, non-hook source,
+	// with the enclosing function (the L3 models' atomic steps are cut at these points)
+	type hp struct{ name, fn string }
+	var hps []hp
+	for _, dir := range []string{".", "segment"} {
+		fset := token.NewFileSet()
+		pkgs, err := parser.ParseDir(fset, filepath.Join(repo, dir), func(fi os.FileInfo) bool {
+			return !strings.HasSuffix(fi.Name(), "_test.go") && !strings.HasPrefix(fi.Name(), "verifhook")
+		}, 0)
+		if err != nil {
+			continue
+		}
+		for _, ap := range pkgs {
+			for _, f := range ap.Files {
+				for _, d := range f.Decls {
+					fd, ok := d.(*ast.FuncDecl)
+					if !ok || fd.Body == nil {
+						continue
+					}
+					ast.Inspect(fd.Body, func(n ast.Node) bool {
+						call, ok := n.(*ast.CallExpr)
+						if !ok || len(call.Args) != 1 {
+							return true
+						}
+						id, ok := call.Fun.(*ast.Ident)
+						if !ok || id.Name != "verifPoint" {
+							return true
+						}
+						if lit, ok := call.Args[0].(*ast.BasicLit); ok && lit.Kind == token.STRING {
+							hps = append(hps, hp{strings.Trim(lit.Value, "\""), fd.Name.Name})
+						} else {
+							hps = append(hps, hp{"<non-literal>", fd.Name.Name})
+						}
+						return true
+					})
+				}
+			}
+		}
+	}
+	sort.Slice(hps, func(i, j int) bool { return hps[i].name < hps[j].name })
+	p("")
+	p("(* ---- schedule points (verifPoint call sites; name, enclosing function) ---- *)")
+	p("Definition hook_points : list (list N * list N) :=")
+	for i, h := range hps {
+		sep := ";"
+		if i == len(hps)-1 {
+			sep = ""
+		}
+		p("  %s(%s%%N, %s%%N)%s (* %s in %s *)", map[bool]string{true: "[ ", false: "  "}[i == 0], coqStr(h.name), coqStr(h.fn), sep, h.name, h.fn)
+	}
+	if len(hps) == 0 {
+		p("  [")
+	}
+	p("  ].")
 	p("")
 	p("(* integer functions not translated (body outside the straight-line fragment): %s *)", strings.Join(skipped, ", "))
 	return "Source.v", sb.String()
